@@ -2977,13 +2977,14 @@ static Node *mul(Token **rest, Token *tok) {
 // cast = "(" type-name ")" cast | unary
 static Node *cast(Token **rest, Token *tok) {
   if (equal(tok, "(") && is_typename(tok->next)) {
+    // A compound literal is a postfix expression. It is recognized by
+    // looking ahead, so that its type name is parsed only once.
+    if (is_compound_literal(tok))
+      return unary(rest, tok);
+
     Token *start = tok;
     Type *ty = typename(&tok, tok->next);
     tok = skip(tok, ")");
-
-    // compound literal
-    if (equal(tok, "{"))
-      return unary(rest, start);
 
     // type cast
     Node *node = new_cast(cast(rest, tok), ty);
